@@ -103,14 +103,25 @@ static std::string run(const std::vector<std::string> &t) {
         size_t cap = dflt ? 0 : (size_t) num(3);
         auto make = [&](auto tag) {
             using RB = typename decltype(tag)::type;
+            // the elements of an initializer_list are const: the same list OBJECT is used for two buffers; the second one (gone
+            // before the operation ends: net lifetime change = one construction) has to hold the same values as the first
+            auto fromList = [&](std::initializer_list<Elem> il) {
+                RB *first = dflt ? new RB(il) : new RB(il, cap);
+                {
+                    RB second(il);
+                    bool same = second.size() == first->size();
+                    for (size_t i = 0; same && i < second.size(); ++i) same = valueOf(second[i]) == valueOf((*first)[i]);
+                    if (!same) reg().fail("INIT_LIST_CONSUMED");
+                }
+                return first;
+            };
             // the temporaries of the initializer_list die at the end of the full expression
             switch (v.size()) {
                 case 1: return dflt ? new RB({mk(v[0])}) : new RB({mk(v[0])}, cap);
-                case 2: return dflt ? new RB({mk(v[0]), mk(v[1])}) : new RB({mk(v[0]), mk(v[1])}, cap);
+                case 2: return fromList({mk(v[0]), mk(v[1])});
                 case 3: return dflt ? new RB({mk(v[0]), mk(v[1]), mk(v[2])})
                                     : new RB({mk(v[0]), mk(v[1]), mk(v[2])}, cap);
-                default: return dflt ? new RB({mk(v[0]), mk(v[1]), mk(v[2]), mk(v[3])})
-                                     : new RB({mk(v[0]), mk(v[1]), mk(v[2]), mk(v[3])}, cap);
+                default: return fromList({mk(v[0]), mk(v[1]), mk(v[2]), mk(v[3])});
             }
         };
         if (o.ow) o.b = make(std::type_identity<RB1>{}); else o.a = make(std::type_identity<RB0>{});
